@@ -1,4 +1,6 @@
 import BoxoModel.C07.Lemmas
+import BoxoModel.C07.GenBridge
+import BoxoModel.C07.BlocksLemmas
 /-!
 # C07 — UnixFS file import round-trips with consistent metadata and layout
 
@@ -148,6 +150,96 @@ theorem c07_deterministic (c : Cfg) (cs : List Chunk) (o₁ o₂ : Out) :
     (balancedLayout c cs = some o₁ → balancedLayout c cs = some o₂ → o₁ = o₂) ∧
     (trickleLayout c cs = some o₁ → trickleLayout c cs = some o₂ → o₁ = o₂) :=
   ⟨fun h1 h2 => Option.some.inj (h1.symm.trans h2), fun h1 h2 => Option.some.inj (h1.symm.trans h2)⟩
+
+/-! ## T-gen: the loop conditions of the Go builders, regenerated from the source on every run
+(`extract intsq` → `BoxoModel/Gen/C07.lean`), are the conditions the model uses — for all Go `int`s that
+are child counts / widths / depths (0 ≤ · < 2^63). A change of a comparison or constant in the Go source
+changes the generated definition and breaks these theorems. -/
+
+/-- `for node.NumChildren() < db.Maxlinks() && !db.Done()` of balanced.fillNodeRec = the test of `fillLoop` -/
+theorem c07_gen_fillNodeRec_loop (n w : Nat) (done : Bool) (hn : n < 2 ^ 63) (hw : w < 2 ^ 63) :
+    Gen.C07.fillNodeRecLoopCond done (BitVec.ofNat 64 w) (BitVec.ofNat 64 n) = (decide (n < w) && !done) := by
+  simp [Gen.C07.fillNodeRecLoopCond, GoSmall.slt n w hn hw]
+
+/-- `for node.NumChildren() < db.maxlinks && !db.Done()` of FillNodeLayer = the same test -/
+theorem c07_gen_fillNodeLayer_loop (n w : Nat) (done : Bool) (hn : n < 2 ^ 63) (hw : w < 2 ^ 63) :
+    Gen.C07.fillNodeLayerLoopCond done (BitVec.ofNat 64 w) (BitVec.ofNat 64 n) = (decide (n < w) && !done) := by
+  simp [Gen.C07.fillNodeLayerLoopCond, GoSmall.slt n w hn hw]
+
+/-- fillNodeRec: `depth < 1` is the error case the model leaves out (its argument is `depth - 1`), and
+`depth == 1` selects the leaf level (the model's `dm1 = 0`) -/
+theorem c07_gen_fillNodeRec_depth (dm1 : Nat) (h : dm1 + 1 < 2 ^ 63) :
+    Gen.C07.fillNodeRecDepthError (BitVec.ofNat 64 (dm1 + 1)) = false ∧
+    Gen.C07.fillNodeRecLeafLevel (BitVec.ofNat 64 (dm1 + 1)) = decide (dm1 = 0) := by
+  constructor
+  · have := GoSmall.slt (dm1 + 1) 1 h (by omega)
+    simp only [Gen.C07.fillNodeRecDepthError]
+    rw [show (1#64) = BitVec.ofNat 64 1 from rfl, this]; simp
+  · simp only [Gen.C07.fillNodeRecLeafLevel]
+    by_cases h0 : dm1 = 0
+    · subst h0; simp
+    · simp only [h0, decide_false, beq_eq_false_iff_ne, ne_eq]
+      intro e
+      have := congrArg BitVec.toNat e
+      rw [GoSmall.toNat_ofNat _ h] at this
+      simp at this; omega
+
+/-- `for depth := 1; maxDepth == -1 || depth < maxDepth; depth++` of fillTrickleRec = the condition of `depthLoop` -/
+theorem c07_gen_trickle_depth_loop (depth : Nat) (maxDepth : Int) (hd : depth < 2 ^ 63)
+    (hm : -(2 ^ 63 : Int) ≤ maxDepth) (hm' : maxDepth < 2 ^ 63) :
+    Gen.C07.fillTrickleDepthLoopCond (BitVec.ofNat 64 depth) (BitVec.ofInt 64 maxDepth) =
+      decide (maxDepth = -1 ∨ (depth : Int) < maxDepth) := by
+  simp only [Gen.C07.fillTrickleDepthLoopCond, GoSmall.slt_int depth maxDepth hd hm hm']
+  have e : (BitVec.ofInt 64 maxDepth == BitVec.ofInt 64 (-1)) = decide (maxDepth = -1) := by
+    by_cases h : maxDepth = -1
+    · subst h; simp
+    · simp only [h, decide_false, beq_eq_false_iff_ne, ne_eq]
+      intro e
+      have := congrArg BitVec.toInt e
+      simp only [BitVec.toInt_ofInt] at this
+      have h1 : maxDepth.bmod (2 ^ 64) = maxDepth := by apply Int.bmod_eq_of_le <;> omega
+      have h2 : (-1 : Int).bmod (2 ^ 64) = -1 := by decide
+      rw [h1, h2] at this
+      exact h this
+  rw [e]
+  by_cases h1 : maxDepth = -1 <;> by_cases h2 : (depth : Int) < maxDepth <;> simp [h1, h2]
+
+/-- `for repeatIndex := 0; repeatIndex < depthRepeat && !db.Done()`: at most `depthRepeat = 4` sub-graphs per depth,
+the bound of `repeatLoop` -/
+theorem c07_gen_trickle_repeat_loop (i : Nat) (done : Bool) (hi : i < 2 ^ 63) :
+    Gen.C07.fillTrickleRepeatLoopCond done (BitVec.ofNat 64 i) = (decide (i < depthRepeat) && !done) := by
+  simp only [Gen.C07.fillTrickleRepeatLoopCond, depthRepeat]
+  rw [show (4#64) = BitVec.ofNat 64 4 from rfl, GoSmall.slt i 4 hi (by omega)]; rfl
+
+/-! ## Blocks: the layout model composed with the dag-pb encoder (C11) and the UnixFS Data encoder (C18) -/
+
+/-- The block the model emits for an internal node decodes, through the C11 and C18 decoders, to exactly the
+node's links (one per child, in order, unnamed, carrying the child's CID and cumulative size) and to the UnixFS
+message {File, filesize, blocksizes} of the tree — for every tree and every CID assignment whose links pass
+`checkLink` (non-empty CID, Tsize < 2^63) and whose sizes fit their Go types. -/
+theorem c07_block_roundtrip (c : BlockCfg) (fs : Nat) (cs : List (FNode × Nat)) (cids : List (List UInt8))
+    (hfs : fs < 2 ^ 64) (hbs : ∀ x ∈ cs, x.2 < 2 ^ 64)
+    (hl : ∀ l ∈ (blocksOfL c cs cids.tail).2.1, C11.checkLink l = true)
+    (hd : (C18.encode { type := 2, filesize := some fs, blocksizes := cs.map (·.2) }).length < 2 ^ 64)
+    (hb : ((blocksOf c {} (.node fs cs) cids).blocks.headD []).length < 2 ^ 64) :
+    ∃ data, C11.decodePB ((blocksOf c {} (.node fs cs) cids).blocks.headD []) =
+        some ((blocksOfL c cs cids.tail).2.1, some data) ∧
+      C18.decode data = some { type := 2, filesize := some fs, blocksizes := cs.map (·.2) } := by
+  have hw : withAttrs ({ type := 2, filesize := some fs, blocksizes := cs.map (·.2) } : C18.FSNode) {} =
+      { type := 2, filesize := some fs, blocksizes := cs.map (·.2) } := by simp [withAttrs]
+  rw [blocksOf_node, hw] at hb ⊢
+  simp only [List.headD_cons] at hb ⊢
+  refine ⟨C18.encode { type := 2, filesize := some fs, blocksizes := cs.map (·.2) }, ?_, ?_⟩
+  · rw [C11.c11_roundtrip _ _ hl hb, sortLinks_unnamed _ (blocksOfL_unnamed c cs cids.tail)]
+  · apply C18.c18_codec_rt _ ?_ hd
+    exact { type := by simp, filesize := by intro v h; simp at h; omega,
+            blocks := by
+              intro v hv
+              simp only [List.mem_map] at hv
+              obtain ⟨x, hx, rfl⟩ := hv
+              exact hbs x hx,
+            hashType := by intro v h; simp at h, fanout := by intro v h; simp at h,
+            secs := by intro m h; simp at h, nanos := by intro m v h; simp at h }
 
 /-! ## Non-vacuity: concrete deep trees -/
 
